@@ -273,6 +273,11 @@ class Oracle:
         if has_async or mixed:
             # tasks of the coroutine controller and plain sends interleave, and RPCs and broadcasts travel on different
             # queues (in which order a broadcast and an RPC sent back to back are handled is not laid down): multisets
+            import collections
+            mandatory_ms = collections.Counter(repr(c) for i, c in enumerate(want_calls) if i not in optional)
+            want_ms, got_ms = collections.Counter(map(repr, want_calls)), collections.Counter(map(repr, got_calls))
+            if optional and not (mandatory_ms - got_ms) and not (got_ms - want_ms):
+                got_calls = list(want_calls)  # (only broadcasts that were overtaken by the termination are missing)
             want_calls, got_calls = sorted(want_calls, key=repr), sorted(got_calls, key=repr)
         if optional and not (has_async or mixed) and got_calls != want_calls:
             mandatory = [c for i, c in enumerate(want_calls) if i not in optional]
